@@ -44,7 +44,7 @@ FUNCS = {
                                  "expression": 38, "context": 42}),
 }
 OBJS = {
-    "o1": _Obj("o1", p=5, q=Fraction(1, 2), aggregate=7, name=3),
+    "o1": _Obj("o1", p=5, q=Fraction(1, 2), aggregate=7, name=3, _u=9, __w__=-4),
     "o2": _Obj("o2", p=-2),
 }
 
